@@ -215,8 +215,8 @@ func runC15(r *Run) {
 	// (5) authenticate before use
 	rd := "p2p.(*rlpxFrameRW).ReadMsg"
 	r.Guards([]row{
-		{F: rd, C: "F(hmac.Equal(p2p.updateMAC(recv.ingressMAC,recv.macCipher,new([32]byte)[:32][:16]),new([32]byte)[:32][16:]))", Pre: []string{"=recv.dec.XORKeyStream(new([32]byte)[:32][:16],new([32]byte)[:32][:16])", "p2p.readInt24", "=io.ReadFull(recv.conn,make([]byte))"}, Why: "the header MAC is verified before the header is decrypted, the frame size read or the frame buffer allocated"},
-		{F: rd, C: "F(hmac.Equal(p2p.updateMAC(recv.ingressMAC,recv.macCipher,recv.ingressMAC.Sum(nil)),new([32]byte)[:32][:16]))", Pre: []string{"=recv.dec.XORKeyStream(make([]byte),make([]byte))", "github.com/ethereum/go-ethereum/rlp.Decode"}, Why: "the frame MAC is verified before the frame is decrypted and decoded"},
+		{F: rd, C: "F(hmac.Equal(p2p.updateMAC(recv.ingressMAC,recv.macCipher,new([32]byte)[:32][:16]),new([32]byte)[:32][16:]))", Pre: []string{"=recv.dec.XORKeyStream(new([32]byte)[:32][:16],new([32]byte)[:32][:16])", "p2p.readInt24", "=io.ReadFull(recv.conn,make([]byte,phi((p2p.readInt24(new([32]byte)[:32])+(16-(p2p.readInt24(new([32]byte)[:32])%16)))|p2p.readInt24(new([32]byte)[:32]))))"}, Why: "the header MAC is verified before the header is decrypted, the frame size read or the frame buffer allocated"},
+		{F: rd, C: "F(hmac.Equal(p2p.updateMAC(recv.ingressMAC,recv.macCipher,recv.ingressMAC.Sum(nil)),new([32]byte)[:32][:16]))", Pre: []string{"=recv.dec.XORKeyStream(make([]byte,phi((p2p.readInt24(new([32]byte)[:32])+(16-(p2p.readInt24(new([32]byte)[:32])%16)))|p2p.readInt24(new([32]byte)[:32]))),make([]byte,phi((p2p.readInt24(new([32]byte)[:32])+(16-(p2p.readInt24(new([32]byte)[:32])%16)))|p2p.readInt24(new([32]byte)[:32]))))", "github.com/ethereum/go-ethereum/rlp.Decode"}, Why: "the frame MAC is verified before the frame is decrypted and decoded"},
 	})
 	dp := "p2p/discover.decodePacket"
 	r.Guards([]row{
